@@ -98,6 +98,8 @@ impl Process for Limiter {
     closed spec fn fut(&self, rows: Seq<Context>) -> Seq<char> { self.next.fut(window(self.skip_left(), self.take_left(), rows)) }
     closed spec fn must_break(&self) -> bool { match self.limit { Some(l) => self.passed >= l, None => self.next.must_break() } }
     closed spec fn eager(&self) -> bool { false }
+    closed spec fn rejects(&self, titles: Seq<String>) -> bool { self.next.rejects(titles) }
+    closed spec fn header(&self, titles: Seq<String>) -> Seq<char> { self.next.header(titles) }
 
 //@@ fn limiter.complete = src/limits.rs :: impl Process for Limiter :: fn complete
 //@@ safety C08 C09 C03
@@ -106,7 +108,7 @@ impl Process for Limiter {
 //@@ safety C08 C14 C03 C05
 //@@ endfn
 //@@ fn limiter.start = src/limits.rs :: impl Process for Limiter :: fn start
-//@@ safety C03
+//@@ safety C03 C18 C15
 //@@ endfn
 }
 
@@ -131,12 +133,14 @@ impl Process for ActiveFilter {
     closed spec fn fut(&self, rows: Seq<Context>) -> Seq<char> { self.next.fut(filter_rows(self.filter, rows)) }
     closed spec fn must_break(&self) -> bool { self.next.must_break() }
     closed spec fn eager(&self) -> bool { false }
+    closed spec fn rejects(&self, titles: Seq<String>) -> bool { self.next.rejects(titles) }
+    closed spec fn header(&self, titles: Seq<String>) -> Seq<char> { self.next.header(titles) }
 
 //@@ fn filter.complete = src/filter.rs :: impl Process for ActiveFilter :: fn complete
 //@@ safety C03 C16
 //@@ endfn
 //@@ fn filter.start = src/filter.rs :: impl Process for ActiveFilter :: fn start
-//@@ safety C03
+//@@ safety C03 C18 C15
 //@@ rewrite crate_paths
 //@@ endfn
 //@@ fn filter.process = src/filter.rs :: impl Process for ActiveFilter :: fn process
@@ -167,9 +171,11 @@ impl Process for SelectionProcess {
     closed spec fn fut(&self, rows: Seq<Context>) -> Seq<char> { self.next.fut(select_rows(self.getter, *self.name, rows)) }
     closed spec fn must_break(&self) -> bool { self.next.must_break() }
     closed spec fn eager(&self) -> bool { false }
+    closed spec fn rejects(&self, titles: Seq<String>) -> bool { self.next.rejects(titles.push(*self.name)) }
+    closed spec fn header(&self, titles: Seq<String>) -> Seq<char> { self.next.header(titles.push(*self.name)) }
 
 //@@ fn selection.start = src/selection.rs :: impl Process for SelectionProcess :: fn start
-//@@ safety C03
+//@@ safety C03 C18 C15
 //@@ endfn
 //@@ fn selection.complete = src/selection.rs :: impl Process for SelectionProcess :: fn complete
 //@@ safety C03 C16
@@ -189,6 +195,8 @@ impl Process for PreSetProcessor {
     closed spec fn fut(&self, rows: Seq<Context>) -> Seq<char> { self.next.fut(preset_rows(self.variables@, self.macros@, rows)) }
     closed spec fn must_break(&self) -> bool { self.next.must_break() }
     closed spec fn eager(&self) -> bool { false }
+    closed spec fn rejects(&self, titles: Seq<String>) -> bool { self.next.rejects(titles) }
+    closed spec fn header(&self, titles: Seq<String>) -> Seq<char> { self.next.header(titles) }
 
 //@@ fn preset.complete = src/pre_sets.rs :: impl Process for PreSetProcessor :: fn complete
 //@@ safety C03 C16
@@ -197,7 +205,7 @@ impl Process for PreSetProcessor {
 //@@ safety C03 C14 C16 C11 C12
 //@@ endfn
 //@@ fn preset.start = src/pre_sets.rs :: impl Process for PreSetProcessor :: fn start
-//@@ safety C03
+//@@ safety C03 C18 C15
 //@@ endfn
 }
 
@@ -253,6 +261,8 @@ impl Process for SplitterProcess {
     closed spec fn fut(&self, rows: Seq<Context>) -> Seq<char> { self.next.fut(split_rows(self.split_by, rows)) }
     closed spec fn must_break(&self) -> bool { self.next.must_break() }
     closed spec fn eager(&self) -> bool { false }
+    closed spec fn rejects(&self, titles: Seq<String>) -> bool { self.next.rejects(titles) }
+    closed spec fn header(&self, titles: Seq<String>) -> Seq<char> { self.next.header(titles) }
 
 //@@ fn splitter.complete = src/splitter.rs :: impl Process for SplitterProcess :: fn complete
 //@@ safety C03 C16
@@ -304,7 +314,7 @@ impl Process for SplitterProcess {
                 }
 //@@ endfn
 //@@ fn splitter.start = src/splitter.rs :: impl Process for SplitterProcess :: fn start
-//@@ safety C03
+//@@ safety C03 C18 C15
 //@@ endfn
 }
 
@@ -331,12 +341,14 @@ impl Process for Uniquness {
     closed spec fn fut(&self, rows: Seq<Context>) -> Seq<char> { self.next.fut(uniq_rows(self.knwon_lines@, rows)) }
     closed spec fn must_break(&self) -> bool { self.next.must_break() }
     closed spec fn eager(&self) -> bool { false }
+    closed spec fn rejects(&self, titles: Seq<String>) -> bool { self.next.rejects(titles) }
+    closed spec fn header(&self, titles: Seq<String>) -> Seq<char> { self.next.header(titles) }
 
 //@@ fn uniq.complete = src/duplication_remover.rs :: impl Process for Uniquness :: fn complete
 //@@ safety C03 C16 C10
 //@@ endfn
 //@@ fn uniq.start = src/duplication_remover.rs :: impl Process for Uniquness :: fn start
-//@@ safety C03
+//@@ safety C03 C18 C15
 //@@ endfn
 //@@ fn uniq.process = src/duplication_remover.rs :: impl Process for Uniquness :: fn process
 //@@ safety C03 C10 C14 C16
@@ -369,6 +381,9 @@ impl Process for Merger {
     closed spec fn fut(&self, rows: Seq<Context>) -> Seq<char> { self.next.fut(seq![merged_row(self.data@, rows)]) }
     closed spec fn must_break(&self) -> bool { false }
     closed spec fn eager(&self) -> bool { false }
+    // --group-by / --merge reset the titles: the printer is started with none
+    closed spec fn rejects(&self, titles: Seq<String>) -> bool { self.next.rejects(Seq::empty()) }
+    closed spec fn header(&self, titles: Seq<String>) -> Seq<char> { self.next.header(Seq::empty()) }
 
 //@@ fn merger.complete = src/merger.rs :: impl Process for Merger :: fn complete
 //@@ safety C09 C03 C16
@@ -393,7 +408,7 @@ impl Process for Merger {
         }
 //@@ endfn
 //@@ fn merger.start = src/merger.rs :: impl Process for Merger :: fn start
-//@@ safety C09 C03
+//@@ safety C09 C03 C18 C15
 //@@ endfn
 }
 }
@@ -432,6 +447,9 @@ impl Process for GrouperProcess {
     closed spec fn fut(&self, rows: Seq<Context>) -> Seq<char> { self.next.fut(seq![grouped_row(self.group_by, self.groups(), rows)]) }
     closed spec fn must_break(&self) -> bool { false }
     closed spec fn eager(&self) -> bool { false }
+    // --group-by / --merge reset the titles: the printer is started with none
+    closed spec fn rejects(&self, titles: Seq<String>) -> bool { self.next.rejects(Seq::empty()) }
+    closed spec fn header(&self, titles: Seq<String>) -> Seq<char> { self.next.header(Seq::empty()) }
 
 //@@ fn grouper.complete = src/grouper.rs :: impl Process for GrouperProcess :: fn complete
 //@@ safety C09 C03 C16
@@ -473,7 +491,7 @@ impl Process for GrouperProcess {
             }
 //@@ endfn
 //@@ fn grouper.start = src/grouper.rs :: impl Process for GrouperProcess :: fn start
-//@@ safety C09 C03
+//@@ safety C09 C03 C18 C15
 //@@ rewrite underscore_param
 //@@ endfn
 }
@@ -528,9 +546,11 @@ impl Process for SortProcess {
     }
     closed spec fn must_break(&self) -> bool { false }
     closed spec fn eager(&self) -> bool { false }
+    closed spec fn rejects(&self, titles: Seq<String>) -> bool { self.next.rejects(titles) }
+    closed spec fn header(&self, titles: Seq<String>) -> Seq<char> { self.next.header(titles) }
 
 //@@ fn sorter.start = src/sorters.rs :: impl Process for SortProcess :: fn start
-//@@ safety C03
+//@@ safety C03 C18 C15
 //@@ endfn
 //@@ fn sorter.complete = src/sorters.rs :: impl Process for SortProcess :: fn complete
 //@@ safety C07 C08 C03 C16
